@@ -78,10 +78,19 @@ def float_oracle(css_re, spacing, n):
             num = float(m.group(1))
         except ValueError:
             return 'E', []
-    return enc_str(str(num)), [enc_str(str(num * k)) for k in range(1, n + 1)]
+    text = m.group(1) if m is not None else None
+
+    def length_number(factor):
+        # odf/easyliststyle.py:_lengthNumber (since /repo fe67379): positional notation where str(float) would use an exponent / inf
+        s = str(num * factor)
+        if text is not None and ('e' in s or 'n' in s):
+            s = format(Decimal(text) * factor, 'f')
+        return s
+    return enc_str(length_number(1)), [enc_str(length_number(k)) for k in range(1, n + 1)]
 
 
 CSS_LENGTH = re.compile(r'([+-]?(?:[0-9]+\.?[0-9]*|\.[0-9]+)(?:[eE][+-]?[0-9]+)?)[ \t]*([A-Za-z]*)\Z')   # a blank before the unit is tolerated
+ODF_NUMBER = re.compile(r'-?([0-9]+(\.[0-9]*)?|\.[0-9]+)\Z')
 NUM_BACK = re.compile(r'([+-]?(?:[0-9]+\.?[0-9]*|\.[0-9]+)(?:[eE][+-]?[0-9]+)?|[+-]?inf|nan)(.*)\Z', re.S)
 
 
@@ -137,6 +146,9 @@ def check_style(st, specs, spacing, show_all):
                 bad.append(('indent', 'level %d: %s is %r' % (i + 1, key, pa.get(key))))
                 continue
             want = num * factor
+            if not ODF_NUMBER.match(mm.group(1)):
+                # the number of an ODF length (schema datatype `length`: -?([0-9]+(\.[0-9]*)?|\.[0-9]+)unit) has no exponent
+                bad.append(('indent-number-form', 'level %d: %s is %r: an ODF length has no exponent / inf / nan' % (i + 1, key, pa.get(key))))
             if mm.group(2) != unit.lower():      # ODF lengths (the schema's `length`) spell their unit in lower case
                 bad.append(('indent-unit', 'level %d: %s is %r, the spacing unit is %r' % (i + 1, key, pa.get(key), unit)))
             if abs(got - want) > Decimal('1e-9') * max(Decimal(1), abs(want)):
